@@ -125,6 +125,55 @@ theorem phaseDeserialize_ge3 (n : Nat) (h : 3 ≤ n) : phaseDeserialize (toDec n
 theorem phaseDeserialize_phaseStr (p : Option Nat) (h : ∀ n, p = some n → n < 3) : phaseDeserialize (phaseStr p) = .ok p :=
   (phaseDeserialize_refines_model _).1 p (readPhase_phaseStr p h)
 
+/-! ## The closure of `Records::next` that builds the record: split on the value delimiter, quote trimming, insertion -/
+
+theorem splitByte_eq (c : Nat) (s : List Nat) : Rs.splitByte c s = splitOn c s := by
+  induction s with
+  | nil => rfl
+  | cons x r ih =>
+    simp only [Rs.splitByte, splitOn, ih]
+    by_cases h : x = c
+    · simp [h]
+    · simp only [h, if_false]
+      cases splitOn c r <;> rfl
+
+theorem trimQuotes_eq (s : List Nat) : Rs.trimByte 34 (Rs.trimByte 39 s) = trimQuotes s := rfl
+
+theorem foldl_snoc {α β : Type} (f : β → α) (l : List β) (acc : List α) :
+    List.foldl (fun a x => a ++ [f x]) acc l = acc ++ l.map f := by
+  induction l generalizing acc with
+  | nil => simp
+  | cons x r ih => simp [ih]
+
+theorem foldl_app {α β : Type} (g : β → List α) (l : List β) (acc : List α) :
+    List.foldl (fun a x => a ++ g x) acc l = acc ++ l.flatMap g := by
+  induction l generalizing acc with
+  | nil => simp
+  | cons x r ih => simp [ih]
+
+/-- the reader's record in the model's vocabulary -/
+def toRead (r : Record) : GffRead :=
+  ⟨r.seqname, r.source, r.feature_type, r.start, r.end', r.score, r.strand, r.phase, r.attributes⟩
+
+/-- **the record closure of `gff::Records::next` as written = the record the model reader builds** (`parseGffFields`, ok branch):
+the eight columns are handed through, the attribute column is post-processed as `parseAttrs` does — every capture of the
+key/value expression (`captures` abstract; instantiated with the model's scanner `scan`, which is the trusted reading of the regular
+expression) is split on the value delimiter, key and values lose their quote characters (`'` then `"`), and the pairs are inserted
+in that order (the reader's `MultiMap` read as its insertion sequence) -/
+theorem recordOfColumns_eq_model (d : Dialect) (hv : d.vdelim < 128) (self : Records) (hs : self.value_delim = d.vdelim)
+    (a b c : List Nat) (x y : Nat) (sc st : List Nat) (p : Option Nat) (att : List Nat) :
+    toRead (recordOfColumns (fun s => scan d (s.length + 1) s) self a b c x y sc st p att)
+      = ⟨a, b, c, x, y, sc, st, p, parseAttrs d att⟩ := by
+  have hsplit : ∀ s, Rs.splitChar d.vdelim s = splitOn d.vdelim s := by
+    intro s; simp [Rs.splitChar, hv, splitByte_eq]
+  simp only [toRead, recordOfColumns, hs, hsplit, foldl_snoc, foldl_app, List.nil_append, parseAttrs]
+  rfl
+
+-- `Tag="x",'y';I=z` (GFF3): three pairs, quotes trimmed
+example : (recordOfColumns (fun s => scan gff3 (s.length + 1) s) ⟨(), 44⟩ [99] [46] [103] 1 2 [46] [43] none
+      [84, 61, 34, 120, 34, 44, 39, 121, 39, 59, 73, 61, 122]).attributes = [([84], [120]), ([84], [121]), ([73], [122])] := by
+  decide
+
 example : phaseDeserialize [51] = .error () := rfl        -- "3"
 example : phaseDeserialize [50] = .ok (some 2) := rfl      -- "2"
 example : phaseDeserialize [120] = .error () := rfl       -- "x"
